@@ -154,7 +154,9 @@ func runHelp(c helpCase) (r helpResult) {
 		n := c.Nodes[idx]
 		cmd.Spec = n.Spec
 		cmd.LongDesc = n.LongDesc
-		cmd.Hidden = n.Hidden
+		if n.Hidden {
+			cmd.Hidden = true // otherwise left as the library created it
+		}
 		for _, o := range n.Opts {
 			declParam(cmd, o, true)
 		}
